@@ -473,6 +473,9 @@ impl Model {
         if !def && !may && instrumented(&self.nodes[h].rk) {
             viol!(self, at, "C06", "spurious-run", "node {} was recomputed although none of its inputs changed since it last ran", h);
         }
+        if !def && !may && matches!(self.nodes[h].rk, RK::Var { .. } | RK::Const(_) | RK::BConst(_) | RK::BVar { .. }) {
+            viol!(self, at, "C06", "spurious-run", "{} node {} was recomputed although it was not written since it was last computed", kind_name(&self.nodes[h].rk), h);
+        }
         if !def && may {
             self.cov.relax_r2 += 1;
         }
